@@ -94,6 +94,18 @@ def cases(draw, tier, user_passes=False):
         outs.append(prev)
         nl = dict(nl, gates=gates, outputs=outs)
     merges = any(a[0] in ('MEG', 'MDG') for a in atoms_of(spec))
+    sym = sorted(t for t in types if t in ('AND', 'OR', 'XOR', 'NAND', 'NOR', 'NXOR'))
+    pool = [x for x in list(nl['inputs']) + [g[0] for g in nl['gates']] if x != '']
+    if merges and sym and len(set(pool)) >= 2 and draw(st.integers(0, 2)) == 0:
+        # twins of one symmetric type over the same operands in another order, both visible: what the merging passes owe
+        # to every symmetric type alike
+        t = draw(st.sampled_from(sym))
+        ops = draw(st.lists(st.sampled_from(sorted(set(pool))), min_size=2, max_size=3, unique=True))
+        other = ops[1:] + ops[:1] if draw(st.booleans()) else ops[::-1]
+        la, lb = 'tw_a', 'tw_b'
+        while la in pool or lb in pool:
+            la, lb = la + '_', lb + '_'
+        nl = dict(nl, gates=[list(g) for g in nl['gates']] + [[la, t, ops], [lb, t, other]], outputs=list(nl['outputs']) + [la, lb])
     if nl['gates'] and nl['style'] != 'digits' and draw(st.integers(0, 2 if merges else 5)) == 0 and all(g[0] != '' for g in nl['gates']):
         # one gate carries the empty label (legal, and falsy) - preferably a gate the passes have something to do with:
         # one of several gates computing the same function, or a unary gate
